@@ -223,6 +223,7 @@ def run(ctx):
     if not ok:
         # lake failed: the Lean driver may be stale/unbuildable; the search already ran against the real code.
         return dict(level="proof", rule=RULE)
+    spec_kats(ctx)
     corr_perm(ctx, b)
     corr_shake(ctx, exe, quick)
     corr_inc(ctx, exe, quick)
@@ -253,6 +254,34 @@ def classify(ctx, name, dis, oracle):
             ctx.violation(key, "model and implementation disagree but the independent oracle agrees with the implementation "
                           "(model no longer describes the code: property not shown)",
                           dict(op=d["op"][:2000], impl=d["impl"][:600], model=d["model"][:600]), found=False)
+
+
+def spec_kats(ctx):
+    """known-answer *tests* of the executable specifications through the driver (labelled tests, not theorems; the
+    kernel-checked KATs are in SqiProofs/C20Kat.lean): NIST SHAKE example values (1600-bit message 0xA3 x 200), the
+    CTR_DRBG KAT with seed bytes 0..47 (= seed of PQCgenKAT count 0), and agreement of the Lean specs with hashlib /
+    the pure-Python DRBG on a few more inputs."""
+    a3 = "a3" * 200
+    lines = ["spec.shake 128 10 " + a3, "spec.shake 256 10 " + a3, "spec.shake 256 20 -",
+             "spec.drbg %s - 30" % bytes(range(48)).hex()]
+    want = ["131ab8d2b594946b9c81333f9bb6e0ce", "cd8a920ed141aa0407a22d59288652e9",
+            "46b9dd2b0ba88d13233b3feb743eeb243fcd52ea62b81b82b50c27646ed5762f",
+            "061550234d158c5ec95595fe04ef7a25767f2e24cc2bc479d09d86dc9abcfde7056a8c266f9ef97ed08541dbd2e1ffa1"]
+    rng = ctx.rng.fork("speckat")
+    for _ in range(12):
+        v = rng.choice([128, 256]); m = rbytes(rng, rng.choice([0, 1, 135, 136, 137, 167, 168, 169, 400])); n = rng.choice([1, 32, 136, 168, 300])
+        lines.append("spec.shake %d %x %s" % (v, n, hx(m))); want.append(hx(shake(v, m, n)))
+    seed = rbytes(rng, 48); reqs = [0, 1, 15, 16, 17, 100]
+    g = PyDrbg(seed); outs = [hx(g.gen(n)) for n in reqs]
+    lines.append("spec.drbg %s - %s" % (seed.hex(), " ".join("%x" % n for n in reqs))); want.append("|".join(outs))
+    out = ctx.driver(lines)
+    bad = [dict(op=lines[i][:200], got=out[i][:200], want=want[i][:200]) for i in range(len(lines)) if not out[i].startswith(want[i])]
+    ctx.evaluations += len(lines)
+    ctx.obligation("specification KATs through the driver (NIST SHAKE examples, CTR_DRBG seed 0..47, hashlib agreement; %d)" % len(lines),
+                   not bad, json.dumps(bad[:2])[:500])
+    if bad:
+        ctx.violation("speckat:" + bad[0]["op"][:40], "the Lean specification disagrees with a published known answer (check is unsound until fixed)",
+                      bad[0], found=False)
 
 
 def corr_perm(ctx, b):
